@@ -134,4 +134,113 @@ theorem inline_under_delay_changes_outcome (sem : Sem) :
   cases sem <;> exact ⟨rfl, rfl⟩
 end
 
+
+/-! ## Contextual facts: the rewrites at ANY position (any evaluation context, any environment)
+
+The specification machine is environment-based, so a statement about the state
+`compute ctx env t` with `ctx`, `env` universally quantified is a statement about the rewrite wherever
+the machine meets the redex — not only at the root. -/
+section Contextual
+open Gen.Optimiser
+
+/-- `force_delay_reducer`, first branch, at any position: `force (delay t)` is in the state
+`compute ctx env t` three steps later -/
+theorem force_delay_anywhere (sem : Sem) (den : Builtin → List Value → Res Value) (fuel : Nat)
+    (ctx : Ctx) (env : List Value) (t : NTerm) :
+    Spec.runFrom sem den (fuel + 3) (.compute ctx env (.force (.delay t))) =
+    Spec.runFrom sem den fuel (.compute ctx env t) := by
+  simp [Spec.runFrom, Spec.step]
+
+/-- `force_delay_reducer`, second branch (`delay (force x)` ↦ `x`): wherever the result is FORCED the
+two are the same state three steps later — for any binding of `x`, bound or not -/
+theorem delay_force_var_when_forced (sem : Sem) (den : Builtin → List Value → Res Value) (fuel : Nat)
+    (ctx : Ctx) (env : List Value) (x : NamedDeBruijn) :
+    Spec.runFrom sem den (fuel + 3) (.compute (.force :: ctx) env (.delay (.force (.var x)))) =
+    Spec.runFrom sem den fuel (.compute (.force :: ctx) env (.var x)) := by
+  simp [Spec.runFrom, Spec.step]
+
+/-- … and the premise "the result is forced" is necessary: returned unforced the two differ when `x`
+is not a delayed computation (the rewrite relies on the code generator's typing of `x`) -/
+theorem delay_force_var_unforced_differs (sem : Sem) :
+    Spec.run sem (denotation sem) 20 (.app (.lam (nm "x") (.delay (.force (.var (nm "x"))))) one)
+      = .done (.delay (.force one)) ∧
+    Spec.run sem (denotation sem) 20 (.app (.lam (nm "x") (.var (nm "x"))) one) = .done one := by
+  cases sem <;> exact ⟨rfl, rfl⟩
+
+/-- does a term have the shape an arm of `lambda_reducer`'s `match arg_term` selects? -/
+def selects : ArgShape → NTerm → Bool
+  | .stringConstant, .const (.string _) => true
+  | .constant, .const _ => true
+  | .delayError, .delay .error => true
+  | .lambda, .lam _ _ => true
+  | .var, .var _ => true
+  | .builtin, .builtin _ => true
+  | .anythingElse, _ => true
+  | _, _ => false
+
+/-- the value a non-variable inlinable argument denotes in environment `env` -/
+def argValue (env : List Value) : NTerm → Option Value
+  | .const c => some (.con c)
+  | .delay b => some (.delay b env)
+  | .lam n b => some (.lam n b env)
+  | .builtin b => some (.builtin b 0 [])
+  | _ => none
+
+/-- over the GENERATED arm table of `lambda_reducer`: an argument is substituted for the parameter
+only when it is a constant, `delay error`, a lambda, a variable or a builtin (a new arm answering
+`true` for an application, `force`, `error`, `constr` or `case` does not get past this) -/
+theorem lambda_reducer_substitutes_only_value_shapes :
+    ∀ a ∈ lambdaReducerArms, a.2 ≠ .never →
+      a.1 = .constant ∨ a.1 = .delayError ∨ a.1 = .lambda ∨ a.1 = .var ∨ a.1 = .builtin := by
+  decide
+
+/-- the catch-all of the generated table refuses -/
+theorem lambda_reducer_catch_all_refuses : (.anythingElse, .never) ∈ lambdaReducerArms := by decide
+
+/-- every argument of a substituted shape other than a variable is a VALUE: the machine returns it in
+one step, in any context and environment, without failing — so evaluating it zero times or many
+times instead of once cannot change the outcome -/
+theorem substituted_arg_is_value (sem : Sem) (den : Builtin → List Value → Res Value)
+    (a : ArgShape × Verdict) (ha : a ∈ lambdaReducerArms) (hv : a.2 ≠ .never)
+    (t : NTerm) (ht : selects a.1 t = true) (ctx : Ctx) (env : List Value) :
+    (∃ v, argValue env t = some v ∧ Spec.step sem den (.compute ctx env t) = .next (.ret ctx v)) ∨
+    (∃ x, t = .var x) := by
+  rcases lambda_reducer_substitutes_only_value_shapes a ha hv with h | h | h | h | h <;>
+    rw [h] at ht <;> cases t <;> simp [selects] at ht
+  all_goals first | exact .inl ⟨_, rfl, rfl⟩ | exact .inr ⟨_, rfl⟩
+
+/-- a variable argument is returned in one step too, or is free — and then every occurrence it
+would be substituted at fails as well -/
+theorem substituted_var_is_value_or_free (sem : Sem) (den : Builtin → List Value → Res Value)
+    (ctx : Ctx) (env : List Value) (x : NamedDeBruijn) :
+    (∃ v, Spec.step sem den (.compute ctx env (.var x)) = .next (.ret ctx v)) ∨
+    (∀ ctx', Spec.step sem den (.compute ctx' env (.var x)) = .fail) := by
+  cases h : Spec.lookup env x.index with
+  | some v => exact .inl ⟨v, by simp [Spec.step, h]⟩
+  | none => exact .inr (fun _ => by simp [Spec.step, h])
+
+/-- beta at any position for a value argument: `[(lam n body) arg]` is, five steps later, the state
+that computes `body` with `arg`'s value bound to `n` -/
+theorem beta_value_anywhere (sem : Sem) (den : Builtin → List Value → Res Value) (fuel : Nat)
+    (ctx : Ctx) (env : List Value) (n : NamedDeBruijn) (body arg : NTerm) (v : Value)
+    (hv : argValue env arg = some v) :
+    Spec.runFrom sem den (fuel + 5) (.compute ctx env (.app (.lam n body) arg)) =
+    Spec.runFrom sem den fuel (.compute ctx (env ++ [v]) body) := by
+  cases arg <;> simp [argValue] at hv <;> subst hv <;>
+    simp [Spec.runFrom, Spec.step, Spec.applyValue]
+
+/-- non-vacuity: the table does substitute something, and a selected term exists for the shape -/
+example : (ArgShape.constant, Verdict.always) ∈ lambdaReducerArms ∧
+    selects .constant one = true ∧ argValue [] one = some (.con (.integer 1)) := by
+  refine ⟨by decide, rfl, rfl⟩
+
+/-- why an application must NOT be substituted: evaluated zero times instead of once, a failing
+argument stops failing -/
+theorem substituting_a_failing_arg_changes_outcome (sem : Sem) :
+    Spec.run sem (denotation sem) 20 (.app (.lam (nm "x") one) .error) = .fail ∧
+    Spec.run sem (denotation sem) 20 one = .done one := by
+  cases sem <;> exact ⟨rfl, rfl⟩
+
+end Contextual
+
 end AikenVerif.C02
